@@ -31,7 +31,7 @@ REQUIRED_MONITORS = ["weights_nonnegative", "weights_sum_to_one", "flat_unchange
 REQUIRED_BUCKETS = {"quick": ["geom:pinhole", "geom:slit(L,0)", "geom:slit(0,W)", "geom:slit(L,W)", "geom:2d",
                               "grid:linear", "grid:log", "grid:irregular", "qcalc:default", "qcalc:user", "n:1", "n:2",
                               "sigma>q", "zero_width", "grid_extension_hits_zero", "perpoint", "directmodel", "directmodel:mixed-zero", "directmodel:widths-changed-on-same-data-object", "q-order:not-ascending", "acc:low", "acc:med", "acc:high",
-                              "acc:xhigh", "2d:on-axis-pixels", "q-grid:value-listed-twice", "q-grid:end-point-listed-twice", "pinhole:nsigma-given", "2d:stale-q-column", "directmodel:2d-centre-pixel"]}
+                              "acc:xhigh", "2d:on-axis-pixels", "q-grid:value-listed-twice", "q-grid:end-point-listed-twice", "pinhole:nsigma-given", "2d:stale-q-column", "directmodel:2d-centre-pixel", "slit:size-equals-smallest-q"]}
 REQUIRED_BUCKETS["thorough"] = REQUIRED_BUCKETS["quick"]
 
 _state = {"installed": False, "current": None, "evals": 0}
@@ -257,6 +257,14 @@ def run_batch(case, rec):
                 W = float(10**rng.uniform(-3, 0))*max(span, float(np.min(q))) if "W" in geom else 0.0
                 if zero:
                     L = W = 0.0
+                if k == 7 and L and not zero:
+                    # a slit length (or width) exactly equal to the smallest q of the data: the window starts at q - L = 0
+                    if geom == "slit(0,W)":
+                        W = float(np.min(q))
+                    else:
+                        L = float(np.min(q))
+                    perpoint = False
+                    rec.bucket("slit:size-equals-smallest-q")
                 Lv = np.full(n, L)*(rng.uniform(0.7, 1.3, n) if perpoint and L else 1.0)
                 Wv = np.full(n, W)*(rng.uniform(0.7, 1.3, n) if perpoint and W else 1.0)
                 qc = None
